@@ -174,6 +174,358 @@ def run_one(chk, da, prog, sources, want, tag=None):
         chk.traces_validated += 1
 
 
+# --------------------------------------------------------------------------
+# fam_semantics: the Gallina reference semantics (coq/theories/ProgSem.v) tied to NumPy and to dask_array
+SEM_OPS = ["elem2", "elem1", "scalar", "T", "slice", "rechunk", "concat", "stack", "expand", "squeeze", "reduce", "reduce", "reduce",
+           "cum", "broadcast_to", "flip", "roll", "take", "where", "repeat", "diff", "reshape"]
+SEM_EFUN = {"add": "EAdd", "subtract": "ESub", "multiply": "EMul", "maximum": "EMaximum", "minimum": "EMinimum",
+            "negative": "ENeg", "abs": "EAbs", "square": "ESquare", "less": "ELt", "less_equal": "ELe", "greater": "EGt",
+            "greater_equal": "EGe", "equal": "EEq", "not_equal": "ENe", "logical_and": "ELogAnd", "logical_or": "ELogOr",
+            "logical_not": "ELogNot", "clip": "EClip"}
+SEM_RED = {"sum": "RSum", "prod": "RProd", "min": "RMin", "max": "RMax", "any": "RAny", "all": "RAll",
+           "count_nonzero": "RCount", "argmin": "RArgmin", "argmax": "RArgmax"}
+SEM_HEADER = "From DA Require Import ProgSem.\nOpen Scope Z_scope.\n"
+SEM_CASE_TYPE = "nat * prog * list Z * list Z * option (list Z)"
+# kind 0: eval p = NumPy's (shape, data) and pshape p = the advertised shape (when dask_array built the program);
+# kind 1 / 2: the two halves separately (used to classify a mismatch); kind 3: NumPy raises, eval p = None
+SEM_CHECK = ("Definition chk (c : nat * prog * list Z * list Z * option (list Z)) : bool :=\n"
+             "  let '(k, p, s, d, adv) := c in\n"
+             "  let sh := match adv with Some a => pshape_is p a | None => true end in\n"
+             "  match k with O => eval_is p s d && sh | 1 => eval_is p s d | 2 => sh | _ => eval_raises p end%nat.\n")
+
+
+class OutOfSubset(Exception):
+    pass
+
+
+def _cnats(xs):
+    from common import clist, cnat
+    return clist(xs, cnat)
+
+
+def _cpidx(i):
+    from common import cz, cslice
+    if i is None:
+        return "INone"
+    if isinstance(i, slice):
+        return f"(ISlice {cslice(i)})"
+    return f"(IInt {cz(i)})"
+
+
+def to_coq(prog, sources, npmemo):
+    """the program as a ProgSem.prog literal; OutOfSubset when it leaves the integer subset"""
+    from common import clist, cz, cnat, cbool
+
+    def val(q):
+        return progs.eval_np(q, sources, npmemo)
+
+    def kind(q):
+        if q[0] == "const":
+            return "pyint"
+        return np.asarray(val(q)).dtype.kind
+
+    def nat(a, what="axis"):
+        if not isinstance(a, (int, np.integer)) or a < 0:
+            raise OutOfSubset(f"negative {what}")
+        return cnat(a)
+
+    def rec(q):
+        t = q[0]
+        if t in ("src", "nparray"):
+            data = np.asarray(sources[q[1]][0])
+            if data.dtype.kind not in "iub" or data.size > 600:
+                raise OutOfSubset("source dtype/size")
+            return f"(PSrc {clist(data.shape)} {clist(data.astype('int64').ravel().tolist())})"
+        if t == "ones":
+            return f"(POnes {clist(q[1])})"
+        if t == "arange":
+            return f"(PArange {cz(q[1])})"
+        if t == "const":
+            if not isinstance(q[1], (int, np.integer)) or isinstance(q[1], bool):
+                raise OutOfSubset("non-integer scalar")
+            return f"(PConst {cz(q[1])})"
+        if t == "elem":
+            f, args = q[1], q[2:]
+            if f not in SEM_EFUN:
+                raise OutOfSubset("ufunc " + f)
+            kinds = [kind(a) for a in args]
+            if any(k not in ("i", "u", "b", "pyint") for k in kinds):
+                raise OutOfSubset("float operand")
+            name = SEM_EFUN[f]
+            if all(k == "b" for k in kinds):
+                # NumPy resolves the overloaded ufuncs by dtype: on booleans + is OR and * is AND
+                name = {"add": "ELogOr", "multiply": "ELogAnd"}.get(f, name)
+                if f in ("subtract", "negative"):
+                    raise OutOfSubset("boolean subtract")
+            return f"(PElem {name} {clist(args, rec)})"
+        if t == "where":
+            return f"(PElem EWhere {clist(q[1:], rec)})"
+        if t == "T":
+            return f"(PT {clist(q[2], nat)} {rec(q[1])})"
+        if t == "slice":
+            idx = q[2] if isinstance(q[2], tuple) else (q[2],)
+            if any(not (i is None or isinstance(i, (int, np.integer, slice))) for i in idx):
+                raise OutOfSubset("fancy index")
+            return f"(PSlice {clist(idx, _cpidx)} {rec(q[1])})"
+        if t == "rechunk":
+            ch = q[2]
+            ok = isinstance(ch, tuple) and all(isinstance(c, tuple) for c in ch)
+            return f"(PRechunk {clist(ch, clist) if ok else '[]'} {rec(q[1])})"
+        if t in ("concat", "stack"):
+            return f"({'PConcat' if t == 'concat' else 'PStack'} {nat(q[2])} {clist(q[1], rec)})"
+        if t == "expand":
+            return f"(PExpand {nat(q[2])} {rec(q[1])})"
+        if t == "squeeze":
+            return f"(PSqueeze {nat(q[2])} {rec(q[1])})"
+        if t == "broadcast_to":
+            return f"(PBroadcast {clist(q[2])} {rec(q[1])})"
+        if t == "flip":
+            return f"(PFlip {nat(q[2])} {rec(q[1])})"
+        if t == "roll":
+            return f"(PRoll {cz(q[2])} {nat(q[3])} {rec(q[1])})"
+        if t == "take":
+            return f"(PTake {clist(q[2])} {nat(q[3])} {rec(q[1])})"
+        if t == "repeat":
+            return f"(PRepeat {cz(q[2])} {nat(q[3])} {rec(q[1])})"
+        if t == "diff":
+            if kind(q[1]) == "b":
+                raise OutOfSubset("boolean diff")     # np.diff on booleans is xor
+            return f"(PDiff {nat(q[2])} {rec(q[1])})"
+        if t == "reshape":
+            return f"(PReshape {clist(q[2])} {rec(q[1])})"
+        if t == "reduce":
+            _, f, sub, axis, keepdims, _se = q
+            if f not in SEM_RED:
+                raise OutOfSubset("reduction " + f)
+            if axis is None:
+                ax = "None"
+            else:
+                ax = "(Some " + clist(axis if isinstance(axis, tuple) else (axis,), nat) + ")"
+            return f"(PReduce {SEM_RED[f]} {ax} {cbool(bool(keepdims))} {rec(sub)})"
+        if t == "cum":
+            _, f, sub, axis, _method = q
+            return f"(PCum {'CSum' if f == 'cumsum' else 'CProd'} {nat(axis)} {rec(sub)})"
+        raise OutOfSubset("op " + t)
+
+    return rec(prog)
+
+
+def _np_literal(w):
+    from common import clist
+    w = np.asarray(w)
+    return clist(w.shape), clist(w.astype("int64").ravel().tolist())
+
+
+def gen_malformed(rng, prog, v):
+    """one INVALID operation on top of a valid program of value v (NumPy must raise)"""
+    nd = v.ndim
+    shape = v.shape
+    kinds = ["T", "slice_many", "slice_int", "slice_step0", "expand", "squeeze", "broadcast", "axis", "take", "repeat",
+             "reshape", "reduce_axis", "reduce_dup", "reduce_empty", "concat", "stack", "elem"]
+    k = rng.choice(kinds)
+    other = ("ones", tuple(n + 1 + rng.randint(0, 1) for n in shape) or (2,), None)
+    if k == "T" and nd >= 1:
+        axes = list(range(nd))
+        if rng.random() < 0.5:
+            axes[rng.randrange(nd)] = (axes[0] + 1) % max(nd, 2) if nd > 1 else 1
+        else:
+            axes = axes + [nd]
+        if sorted(axes) == list(range(nd)):
+            axes = axes[:-1] if nd > 1 else [1]
+        return ("T", prog, tuple(axes))
+    if k == "slice_many":
+        return ("slice", prog, tuple([slice(None)] * nd + [rng.choice([0, slice(None)])]))
+    if k == "slice_int" and nd >= 1:
+        ax = rng.randrange(nd)
+        idx = [slice(None)] * nd
+        idx[ax] = rng.choice([shape[ax], shape[ax] + 2, -shape[ax] - 1])
+        return ("slice", prog, tuple(idx))
+    if k == "slice_step0" and nd >= 1:
+        idx = [slice(None)] * nd
+        idx[rng.randrange(nd)] = slice(None, None, 0)
+        return ("slice", prog, tuple(idx))
+    if k == "expand":
+        return ("expand", prog, nd + 1 + rng.randint(0, 1))
+    if k == "squeeze" and nd >= 1:
+        bad = [i for i, n in enumerate(shape) if n != 1] + [nd]
+        return ("squeeze", prog, rng.choice(bad))
+    if k == "broadcast":
+        tgt = list(shape)
+        if nd and rng.random() < 0.6:
+            i = rng.randrange(nd)
+            tgt[i] = shape[i] + 1 if shape[i] != 1 else 0 if False else shape[i] + 1
+            if shape[i] == 1:
+                tgt = tgt[1:] if nd > 1 else [-2]
+        else:
+            tgt = tgt[1:] if nd > 1 else [-1]
+        return ("broadcast_to", prog, tuple(tgt))
+    if k == "axis":
+        op = rng.choice(["flip", "roll", "cum", "diff", "repeat", "take"])
+        ax = nd + rng.randint(0, 1)
+        return {"flip": ("flip", prog, ax), "roll": ("roll", prog, 1, ax), "cum": ("cum", "cumsum", prog, ax, "sequential"),
+                "diff": ("diff", prog, ax), "repeat": ("repeat", prog, 2, ax), "take": ("take", prog, (0,), ax)}[op]
+    if k == "take" and nd >= 1:
+        ax = rng.randrange(nd)
+        return ("take", prog, (0, rng.choice([shape[ax], -shape[ax] - 1]))[::rng.choice([1, -1])] if shape[ax] else (0,), ax)
+    if k == "repeat" and nd >= 1:
+        return ("repeat", prog, -rng.randint(1, 2), rng.randrange(nd))
+    if k == "reshape":
+        n = int(v.size)
+        return ("reshape", prog, rng.choice([(n + 1,), (2, -1) if n % 2 else (3, -1) if n % 3 else (n + 1, -1), (-1, -1), (0, -1)]))
+    if k == "reduce_axis":
+        f = rng.choice(["sum", "max", "any", "argmax", "prod"])
+        return ("reduce", f, prog, nd + rng.randint(0, 1), False, None)
+    if k == "reduce_dup" and nd >= 1:
+        a = rng.randrange(nd)
+        return ("reduce", rng.choice(["sum", "min", "all"]), prog, (a, a), False, None)
+    if k == "reduce_empty" and nd >= 1:
+        ax = rng.randrange(nd)
+        idx = [slice(None)] * nd
+        idx[ax] = slice(shape[ax], None)
+        f = rng.choice(["max", "min", "argmax", "argmin"])
+        return ("reduce", f, ("slice", prog, tuple(idx)), ax if f.startswith("arg") else (ax,), False, None)
+    if k == "concat" and nd >= 1:
+        if rng.random() < 0.3:
+            return ("concat", (prog, prog), nd)
+        ax = rng.randrange(nd)
+        if nd == 1 or rng.random() < 0.3:
+            return ("concat", (prog, ("ones", shape + (1,), None)), ax)
+        return ("concat", (prog, other)[::rng.choice([1, -1])], ax)
+    if k == "stack":
+        if rng.random() < 0.3:
+            return ("stack", (prog, prog), nd + 1)
+        return ("stack", (prog, other)[::rng.choice([1, -1])], rng.randint(0, nd))
+    if k == "elem" and nd >= 1 and all(n not in (1,) for n in shape):
+        bad = ("ones", tuple(n + 2 for n in shape), None)
+        return ("elem", rng.choice(["add", "maximum", "multiply"]), *((prog, bad)[::rng.choice([1, -1])]))
+    return None
+
+
+def fam_semantics(chk, da):
+    """the Gallina evaluator `eval` and shape rule `pshape` (ProgSem.v) against NumPy and dask_array"""
+    from common import coq_eval_cases, clist
+    thorough = chk.tier == "thorough"
+    cases, meta = [], []
+
+    def skip(why):
+        chk.count("sem:skipped:" + why.split(" ")[0])
+
+    pool = []
+    for prog, sources, want in progs.gen_programs(chk.rng, 4000 if thorough else 360, ops=SEM_OPS):
+        npmemo = {}
+        w = np.asarray(want)
+        if w.dtype.kind not in "iub":
+            skip("float")
+            continue
+        try:
+            lit = to_coq(prog, sources, npmemo)
+        except OutOfSubset as e:
+            skip(str(e))
+            continue
+        if len(lit) > 40000:
+            skip("large")
+            continue
+        for o in progs.ops_in(prog):
+            chk.count("sem:op:" + o)
+        chk.count("sem:programs")
+        shp, dat = _np_literal(w)
+        if len(pool) < (600 if thorough else 120) and len(lit) < 4000:
+            pool.append((prog, sources, w, lit))
+        # dask_array: the shape it ADVERTISES before computing anything (C03) against pshape, then its computed result
+        try:
+            with warnings.catch_warnings():
+                warnings.simplefilter("ignore")
+                arr = progs.build(prog, da, sources)
+                adv = tuple(int(n) for n in arr.shape)
+                got = compute(arr)
+            agree = progs.values_equal(got, w)[0] and tuple(np.shape(got)) == w.shape
+        except Exception:  # noqa: BLE001
+            arr, adv, agree = None, None, False
+        cases.append(f"(0%nat, {lit}, {shp}, {dat}, {'None' if adv is None else '(Some ' + clist(adv) + ')'})")
+        meta.append(("eval-vs-numpy+pshape-vs-advertised", prog, sources, w, adv, (lit, shp, dat)))
+        if adv is not None:
+            chk.count("sem:advertised_shape_checked")
+            if adv != w.shape:
+                chk.count("sem:advertised_shape_differs_from_numpy")
+        if agree:
+            # NumPy's result is also dask_array's: the Coq check of case 0 covers both
+            chk.count("sem:dask_agrees")
+            chk.traces_validated += 1
+            chk.case(("sem", progs.show(prog), repr([(s[0].shape, s[1]) for s in sources])), nontrivial=len(progs.all_nodes(prog)) > 1)
+        else:
+            # dask_array disagrees with NumPy (or raises): the existing comparison shrinks and reports it (C01 violation / known finding)
+            chk.count("sem:dask_disagrees")
+            run_one(chk, da, prog, sources, want)
+    # malformed programs: one invalid operation on top of a valid program; NumPy raises <-> eval is None
+    n_bad = 0
+    for prog, sources, w, _lit in pool:
+        for _ in range(2):
+            bad = gen_malformed(chk.rng, prog, w)
+            if bad is None:
+                continue
+            try:
+                with np.errstate(all="ignore"):
+                    progs.eval_np(bad, sources, {})
+                chk.count("sem:malformed:numpy_accepts")     # the mutation happened to be valid
+                continue
+            except (ValueError, IndexError, TypeError) as e:
+                kind = type(e).__name__
+            try:
+                lit = to_coq(bad, sources, {})
+            except OutOfSubset as e:
+                skip("malformed-" + str(e))
+                continue
+            cases.append(f"(3%nat, {lit}, [], [], None)")
+            meta.append(("eval-none-vs-numpy-raises", bad, sources, kind, None, (lit, "[]", "[]")))
+            chk.count("sem:malformed:" + bad[0])
+            n_bad += 1
+            try:
+                with warnings.catch_warnings():
+                    warnings.simplefilter("ignore")
+                    barr = progs.build(bad, da, sources, memo={})
+                    bgot = compute(barr)
+                opname = bad[0] if bad[0] != "reduce" else "reduce:" + bad[1]
+                chk.count("sem:malformed:dask_accepts:" + opname)
+                if tuple(np.shape(bgot)) != tuple(barr.shape):
+                    # NumPy raises, dask_array computes something whose shape is not even the one it advertised
+                    chk.violation(f"NumPy raises {kind}; dask_array computes shape {np.shape(bgot)} but advertised {tuple(barr.shape)}",
+                                  {**progs.describe(bad, sources), "numpy": kind, "advertised": list(barr.shape),
+                                   "computed_shape": list(np.shape(bgot))},
+                                  signature={"class": "numpy-raises-dask-misshapen", "root_op": opname,
+                                             "zero_length_result": bool(np.size(bgot) == 0)})
+            except Exception:  # noqa: BLE001
+                chk.count("sem:malformed:dask_raises")
+            chk.case(("sem-bad", progs.show(bad), repr([(s[0].shape, s[1]) for s in sources])), nontrivial=True)
+    mism, _log = coq_eval_cases(SEM_HEADER, SEM_CASE_TYPE, SEM_CHECK, cases, chunk=400 if thorough else 150)
+    chk.count("sem:coq_cases", len(cases))
+    # classify the (rare) mismatches: which half of a combined case failed
+    again, again_meta = [], []
+    for i in mism:
+        kind, prog, sources, w, adv, (lit, shp, dat) = meta[i]
+        if kind.startswith("eval-vs-numpy"):
+            again.append(f"(1%nat, {lit}, {shp}, {dat}, None)")
+            again_meta.append(("eval-vs-numpy", i))
+            if adv is not None:
+                again.append(f"(2%nat, {lit}, [], [], (Some {clist(adv)}))")
+                again_meta.append(("pshape-vs-advertised", i))
+        else:
+            chk.tie_break("ProgSem." + kind, {**progs.describe(prog, sources), "coq": cases[i][:3000], "numpy": w})
+    bad2, _log = coq_eval_cases(SEM_HEADER, SEM_CASE_TYPE, SEM_CHECK, again, chunk=50)
+    for j in bad2:
+        what, i = again_meta[j]
+        kind, prog, sources, w, adv, _lits = meta[i]
+        if what == "pshape-vs-advertised":
+            # the advertised shape is not the reference semantics' (= NumPy's) shape
+            chk.violation("advertised shape differs from the reference semantics' shape",
+                          {**progs.describe(prog, sources), "advertised": list(adv), "numpy_shape": list(w.shape)},
+                          signature={"class": "advertised-shape", "root_op": prog[0] if prog[0] != "reduce" else "reduce:" + prog[1]})
+        else:
+            chk.tie_break("ProgSem.eval-vs-numpy", {**progs.describe(prog, sources), "coq": again[j][:3000],
+                                                    "numpy": {"shape": list(w.shape), "data": w.ravel().tolist()[:200]}})
+    chk.extra["semantics_family"] = {"programs": chk.hist.get("sem:programs", 0), "malformed": n_bad, "coq_cases": len(cases),
+                                     "model_mismatches": len(mism)}
+
+
 def replay(path):
     r = json.load(open(path))
     print(json.dumps(r, indent=1))
@@ -187,7 +539,11 @@ def run(chk: Check):
                 "(both methods), map_blocks, broadcast_to, flip, roll, take, sliding_window_view(+reduction), where, repeat, "
                 "diff, reshape, astype, map_overlap, boolean mask) with shared subtrees; each is built with dask_array, "
                 "computed, and compared (values, shape, dtype) with NumPy on the same integer data; failures are shrunk to "
-                "the smallest failing sub-program; non-trivial = more than one node; distinct by printed program + source layouts")
+                "the smallest failing sub-program; non-trivial = more than one node; distinct by printed program + source layouts.  "
+                "fam_semantics: programs of the integer subset are printed as ProgSem.prog literals and Coq checks by vm_compute that "
+                "eval p = Some (NumPy's shape, data) (= dask_array's computed result when the comparison above passes), that "
+                "pshape p is the shape dask_array advertises before computing, and that eval is None on malformed programs where "
+                "NumPy raises")
     chk.assumptions = ["NumPy is the oracle; float-producing ops compared with rtol 1e-9"]
     chk.run_proofs()
     for tag, prog, sources in CORPUS:
@@ -206,3 +562,4 @@ def run(chk: Check):
     for prog, sources, want in progs.gen_api_programs(api_rng, 6000 if chk.tier == "thorough" else 600):
         chk.count("api-call:" + next(q[1] for q in progs.all_nodes(prog) if q[0] == "call"))
         run_one(chk, da, prog, sources, want)
+    fam_semantics(chk, da)
